@@ -235,6 +235,29 @@ fn one_case(r: &mut Rec, label: &str, a: &[u64], b: &[u64], sa: Sign, sb: Sign, 
     }
 }
 
+/// magnitudes 2^(64k) (all lower digits zero) against each other, all-ones and split operands (also used by C10)
+pub fn pow64_family(r: &mut Rec) {
+    // the 2^(64k) family on both sides, and complements of each other
+    for ka in 0..=4usize {
+        for kb in 0..=4usize {
+            for (sa, sb) in [(Sign::Minus, Sign::Minus), (Sign::Minus, Sign::Plus), (Sign::Plus, Sign::Minus)] {
+                let mut a = vec![0u64; ka + 1];
+                a[ka] = 1;
+                let mut b = vec![0u64; kb + 1];
+                b[kb] = 1;
+                one_case(r, &format!("pow64 {} {} {:?}{:?}", ka, kb, sa, sb), &a, &b, sa, sb, false);
+                let ones = vec![u64::MAX; kb + 1];
+                one_case(r, &format!("pow64 vs ones {} {} {:?}{:?}", ka, kb, sa, sb), &a, &ones, sa, sb, false);
+                // b = a * c + low bits: shorter operand with zero low digits against a longer one
+                let mut c = vec![0u64; kb + 2];
+                c[kb + 1] = 5;
+                c[0] = 2;
+                one_case(r, &format!("pow64 vs split {} {} {:?}{:?}", ka, kb, sa, sb), &a, &c, sa, sb, false);
+            }
+        }
+    }
+}
+
 pub fn run(r: &mut Rec) {
     let mut rng = Rng(r.seed ^ 0xC07);
     let pats = [Pat::Pow2, Pat::Pow2m1, Pat::LowZeros, Pat::Ones, Pat::Random, Pat::OneDigit, Pat::Landmark, Pat::Sparse, Pat::MaxM1];
@@ -263,25 +286,7 @@ pub fn run(r: &mut Rec) {
             }
         }
     }
-    // the 2^(64k) family on both sides, and complements of each other
-    for ka in 0..=4usize {
-        for kb in 0..=4usize {
-            for (sa, sb) in [(Sign::Minus, Sign::Minus), (Sign::Minus, Sign::Plus), (Sign::Plus, Sign::Minus)] {
-                let mut a = vec![0u64; ka + 1];
-                a[ka] = 1;
-                let mut b = vec![0u64; kb + 1];
-                b[kb] = 1;
-                one_case(r, &format!("pow64 {} {} {:?}{:?}", ka, kb, sa, sb), &a, &b, sa, sb, false);
-                let ones = vec![u64::MAX; kb + 1];
-                one_case(r, &format!("pow64 vs ones {} {} {:?}{:?}", ka, kb, sa, sb), &a, &ones, sa, sb, false);
-                // b = a * c + low bits: shorter operand with zero low digits against a longer one
-                let mut c = vec![0u64; kb + 2];
-                c[kb + 1] = 5;
-                c[0] = 2;
-                one_case(r, &format!("pow64 vs split {} {} {:?}{:?}", ka, kb, sa, sb), &a, &c, sa, sb, false);
-            }
-        }
-    }
+    pow64_family(r);
     // long trailing-zero runs for shr rounding with small shift types
     for tz in [100u32, 127, 128, 129, 255, 256, 257, 300, 511] {
         if !r.case(&format!("tzrun {}", tz)) {
